@@ -103,7 +103,14 @@ func presetFor(c *Ctx, id string, i int) *HistOpts {
 		var sc []*scenario
 		switch id {
 		case "C02", "C11", "C12":
-			sc = append(sc, scenExitRestake(int64(3+rng.Intn(6))), scenForcedRelease(int64(4+rng.Intn(8))))
+			if i%4 == 0 {
+				o.Gen.NVal = 3
+				o.Params.MaxValidatorCnt = 6
+				o.Params.MaxUpdatableStakeRatio, o.Params.MaxIndividualStakeRatio, o.Params.MinSelfStakeRatio = 33, 100000, 0
+				sc = append(sc, scenLimiterRejection(int64(3+rng.Intn(6))), scenForcedRelease(int64(10+rng.Intn(6))))
+			} else {
+				sc = append(sc, scenExitRestake(int64(3+rng.Intn(6))), scenForcedRelease(int64(4+rng.Intn(8))))
+			}
 		case "C10":
 			sc = append(sc, scenExitRestake(int64(3+rng.Intn(6))), scenJailAndEvidence(int64(6+rng.Intn(6))))
 		case "C13":
